@@ -241,6 +241,9 @@ type Frame struct {
 
 type callRec struct {
 	pc      *smt.Term
+	fn      *ssa.Function
+	args    []Value
+	pre     *State // state just before the call
 	results []Value
 	types   []types.Type
 	n       int
